@@ -113,6 +113,18 @@ func genExtraneous(g *Gen, src *fstree.Tree, dst *fstree.Tree, n int) {
 		if parent != "" {
 			p = parent + "/" + name
 		}
+		if g.R.Intn(4) == 0 && len(src.Entries) > 0 {
+			// a name that is a proper prefix (or an extension) of a listed name:
+			// "notes" next to "notes.txt", "lib" next to "libfoo/"
+			q := string(src.Entries[g.R.Intn(len(src.Entries))].Path)
+			base := filepath.Base(q)
+			if g.R.Bool() && len(base) > 1 {
+				base = base[:1+g.R.Intn(len(base)-1)]
+			} else {
+				base += []string{"x", ".bak", "-2", "~"}[g.R.Intn(4)]
+			}
+			p = filepath.Join(filepath.Dir(q), base)
+		}
 		if have[p] {
 			continue
 		}
